@@ -600,7 +600,7 @@ def run(chk_):
     # expressions as posting amounts inside whole ledgers (declared precisions, histories, omitted counter-amounts): the
     # shared book-keeping stream, judged for the clauses it attributes to C08 (a written expression's booked amount)
     import bookstream
-    recs = bookstream.run_stream(c, 400 if c.tier == "quick" else 8000, flavors=["expr", "expr-precision"], corpus=())
+    recs = bookstream.run_stream(c, 400 if c.tier == "quick" else 8000, flavors=["expr", "expr-precision", "assert-fresh-zero", "assign-fresh"], corpus=())
     bookstream.judge(c, recs, "C08")
     c.streams["ledgers with expression amounts (book-keeping stream)"] = len(recs)
     # the arithmetic underneath: the Lean model of rust_decimal against the real crate, bit for bit
